@@ -237,6 +237,46 @@ def sc_no_ubm(B):
     return o
 
 
+def sc_self_trained_ubm(B, kind, noise_seed, untrained):
+    """real code only: an estimator that trains its own UBM (`ubm=None` + `ubm_kwargs`, or an untrained
+    GMMMachine) from the arrays gives the model of the explicit two-stage training with the same
+    settings, whatever the global RNG state, and the same model when run a second time"""
+    import numpy as np
+
+    famod, gmm = B.mod("factor_analysis"), B.mod("gmm")
+    rs = np.random.RandomState(3)
+    X = np.vstack([rs.normal(loc=c, scale=0.4, size=(6, 2)) for c in ((0, 0), (4, 1), (-3, 5))])
+    y = [0, 1, 2] * 6
+    kw = dict(n_gaussians=2, max_fitting_steps=2, convergence_threshold=None, random_state=4)
+
+    def make(ubm, **extra):
+        if kind == "isv":
+            return famod.ISVMachine(r_U=1, em_iterations=2, random_state=7, ubm=ubm, **extra)
+        return famod.JFAMachine(r_U=1, r_V=1, em_iterations=2, random_state=7, ubm=ubm, **extra)
+
+    def self_trained():
+        np.random.seed(noise_seed)
+        m = make(gmm.GMMMachine(**kw)) if untrained else make(None, ubm_kwargs=dict(kw))
+        m.fit_using_array(X.copy(), list(y))
+        return m
+
+    a, b = self_trained(), self_trained()
+    np.random.seed(99)
+    ubm = gmm.GMMMachine(**kw)
+    ubm.fit(X.copy())
+    ref = make(ubm)
+    ref.fit_using_array(X.copy(), list(y))
+    o = Outcome()
+    o.equal("self-trained-ubm/means", a.ubm.means, ubm.means)
+    o.equal("self-trained-ubm/variances", a.ubm.variances, ubm.variances)
+    o.equal("self-trained-ubm/U", a.U, ref.U)
+    o.equal("self-trained-ubm/D", a.D, ref.D)
+    o.equal("self-trained-ubm/twice-U", a.U, b.U)
+    if kind == "jfa":
+        o.equal("self-trained-ubm/V", a.V, ref.V)
+    return o
+
+
 def sc_shared_kwargs(B):
     """two estimators configured with the SAME ubm_kwargs dict but different seeds: each builds its
     UBM from the caller's settings only; nothing of the first training leaks into the second, and
@@ -276,6 +316,7 @@ def sc_shared_kwargs(B):
 def job_seed(P):
     P.run("construct-without-ubm", sc_no_ubm, {}, validate=1)
     P.run("shared-ubm-kwargs", sc_shared_kwargs, {}, validate=1)
+    P.probe_real("self-trained-ubm", sc_self_trained_ubm, [dict(kind=k, noise_seed=n, untrained=u) for k in ("isv", "jfa") for n in (1, 2) for u in (False, True)], tries=1)
     for kind in ("isv", "jfa"):
         for seed in (0, 5):
             P.run("seed-%s-%d" % (kind, seed), sc_seed_fa, dict(kind=kind, seed=seed), validate=0)
